@@ -71,7 +71,35 @@ def run(facts, rep, tier, ctx):
     c07.delegation(facts, rep, ws, "R17.4a", D)
     c09.table_u(facts, rep, ws, "R17.4o", only=("create_dir",))
     c09.materialisation_rules(facts, rep, ws, "R17.4o")
-    c10.marker_rules(facts, rep, ws, prefix="R17.4m", only=("R10.3",))
+    c10.marker_rules(facts, rep, ws, prefix="R17.4m", only=("R10.3", "R10.2"))
+    # the segment loop of create_dir_all slices the path: no undischarged panic site (shared with C13 / C01)
+    from . import c13
+    kk = c13.sites_for(facts, rep, ctx["V"], "R17.p", lambda r: r.name == "create_dir_all")
+    rep.floor("create_dir_all slicing sites", kk, 6)
+    # R17.4w re-creating a directory that was removed through the overlay takes two writes (create in the write layer, remove
+    # the deletion marker).  Between them the union view is inconsistent (the write layer answers DirectoryExists, the
+    # overlay's exists() still says "absent"), so a concurrent create_dir_all of something below the directory fails in
+    # ensure_has_parent.  The two writes have to sit in one critical section.
+    from ..overlayrules import Overlay
+    for w_ in (ws, World(facts, True)):
+        if not w_.present():
+            continue
+        ov = Overlay(facts, w_)
+        b = ov.ops.get("create_dir")
+        if b is None:
+            continue
+        tag = "A/" if w_.asyncw else ""
+        cbody = ov.inter.code_body(b)
+        lsx = LockSummary(facts, ov.inter)
+        li = lsx.info(cbody)
+        creates = [s.bb for cb, s, tr, recv in ov.path_sites(b, ("create_dir",)) if cb is cbody and ov.is_upper_plain(recv)]
+        unmarks = [s.bb for cb, s, tr, recv in ov.path_sites(b, ("remove_file",)) if cb is cbody and ov.is_marker(recv)]
+        same = bool(creates) and bool(unmarks) and any(all(x in a.region for x in creates + unmarks) for a in li.acqs)
+        rep.ob(tag + "R17.4w", b.id, "upper create and marker removal share one critical section", same,
+               "" if same else "create_dir creates the directory in the write layer (%d site) and removes its deletion marker (%d site) "
+               "without holding a lock across both: while a removed directory is being re-created, a concurrent create_dir_all of a "
+               "path below it is told DirectoryExists for the directory and then fails with 'Parent path does not exist'" % (len(creates), len(unmarks)),
+               b.span)
     # the async backends and adapters (their own copies of create_dir)
     wa = World(facts, True)
     if wa.present():
@@ -87,7 +115,7 @@ def run(facts, rep, tier, ctx):
         k += c07.delegation(facts, A, wa, "R17.4a", D)
         k += c09.table_u(facts, A, wa, "R17.4o", only=("create_dir",))
         k += c09.materialisation_rules(facts, A, wa, "R17.4o")
-        k += c10.marker_rules(facts, A, wa, prefix="R17.4m", only=("R10.3",))
+        k += c10.marker_rules(facts, A, wa, prefix="R17.4m", only=("R10.3", "R10.2"))
         rep.floor("async backend/adapter create_dir obligations", k, 60)
     rep.assume("no concurrent removals and no files in the way (stated by the property)")
     rep.assume("mkdir(2) is atomic")
